@@ -212,6 +212,16 @@ theorem ukf_correct_invalid_keeps_belief (fac : α → Mat α n n → Mat α n n
   | none => rfl
   | some o => simp [ukfUpdate]
 
+/-- Skipped steps (`GaussianCorrection::correct` / `GaussianPrediction::predict` with the skip flag set —
+    a flag that an object handed over by move construction keeps): both filters return the belief they
+    were given, hence coincide; an unskipped step is the step itself. -/
+theorem ukf_skipped_steps_coincide (pred : GM α n k) (ustep kstep : UKFCorrOut α n m k) (up kp : GM α n k) :
+    gaussianCorrect true pred ustep = gaussianCorrect true pred kstep ∧
+    gaussianCorrect false pred ustep = ustep.belief ∧
+    gaussianPredict true pred up = gaussianPredict true pred kp ∧
+    gaussianPredict false pred up = up := by
+  simp [gaussianCorrect, gaussianPredict]
+
 /-- Non-vacuity: a concrete instance over ℚ of all hypotheses of the correction theorem
     (`n = m = 1`, `α = 1`, `β = 2`, `κ = 0`, `P = 4`, factor `2`). -/
 example : ∃ (fac : ℚ → Mat ℚ 1 1 → Mat ℚ 1 1) (pred : GM ℚ 1 1),
